@@ -143,6 +143,13 @@ namespace foonathan
                     return capacity_ == 0u;
                 }
 
+#ifdef FOONATHAN_MEMORY_VERIF
+                // read-only structural self check (verification hook)
+                // returns nullptr if the list is consistent, else a description;
+                // reachable is set to the number of free nodes found by walking all chunks
+                const char* verif_walk(std::size_t& reachable) const noexcept;
+#endif
+
             private:
                 chunk* find_chunk_impl(std::size_t n = 1) noexcept;
                 chunk* find_chunk_impl(unsigned char* node, chunk_base* first,
